@@ -57,6 +57,12 @@ type TCPConn struct {
 
 var _ transport.StreamConn = (*TCPConn)(nil)
 
+// connErr mirrors net.OpError for an established connection: Source is the
+// local address and Addr the remote one ("read tcp local->remote: ...").
+func (c *TCPConn) connErr(op string, err error) error {
+	return &net.OpError{Op: op, Net: "tcp", Source: c.local, Addr: c.remote, Err: err}
+}
+
 func (c *TCPConn) SimDescribe() string {
 	return fmt.Sprintf("tcp conn#%d side %d %v<->%v", c.Rec.ID, c.side, c.local, c.remote)
 }
@@ -100,7 +106,7 @@ func (c *TCPConn) Read(p []byte) (int, error) {
 	simrt.Yield()
 	for {
 		if c.closed {
-			return 0, opErr("read", "tcp", c.local, net.ErrClosed)
+			return 0, c.connErr("read", net.ErrClosed)
 		}
 		if c.closedRead {
 			return 0, io.EOF
@@ -109,7 +115,7 @@ func (c *TCPConn) Read(p []byte) (int, error) {
 			return 0, nil
 		}
 		if c.rst {
-			return 0, opErr("read", "tcp", c.local, syscall.ECONNRESET)
+			return 0, c.connErr("read", syscall.ECONNRESET)
 		}
 		if len(c.rbuf) > 0 {
 			n := len(c.rbuf)
@@ -135,7 +141,7 @@ func (c *TCPConn) Read(p []byte) (int, error) {
 			return 0, io.EOF
 		}
 		if c.rdl.expired() {
-			return 0, opErr("read", "tcp", c.local, errTimeout)
+			return 0, c.connErr("read", errTimeout)
 		}
 		c.readers = append(c.readers, simrt.Cur())
 		simrt.Block("tcp read", c)
@@ -151,13 +157,13 @@ func (c *TCPConn) Write(p []byte) (int, error) {
 	total := 0
 	for {
 		if c.closed {
-			return total, opErr("write", "tcp", c.local, net.ErrClosed)
+			return total, c.connErr("write", net.ErrClosed)
 		}
 		if c.closedWrite {
-			return total, opErr("write", "tcp", c.local, syscall.EPIPE)
+			return total, c.connErr("write", syscall.EPIPE)
 		}
 		if c.rst {
-			return total, opErr("write", "tcp", c.local, syscall.ECONNRESET)
+			return total, c.connErr("write", syscall.ECONNRESET)
 		}
 		if len(p) == 0 {
 			return total, nil
@@ -181,7 +187,7 @@ func (c *TCPConn) Write(p []byte) (int, error) {
 		space := c.w.Window - len(pe.rbuf)
 		if space <= 0 {
 			if c.wdl.expired() {
-				return total, opErr("write", "tcp", c.local, errTimeout)
+				return total, c.connErr("write", errTimeout)
 			}
 			c.writers = append(c.writers, simrt.Cur())
 			simrt.Block("tcp write (peer window full)", c)
